@@ -75,7 +75,11 @@ type KnownFile struct {
 
 func loadKnown() KnownFile {
 	var k KnownFile
-	b, err := os.ReadFile(filepath.Join(verifDir, "known_findings.json"))
+	path := filepath.Join(verifDir, "known_findings.json")
+	if p := os.Getenv("SYMGO_KNOWN"); p != "" {
+		path = p // tools/selftest_known.sh only: exercises the KNOWN-FINDING path on a seeded tree
+	}
+	b, err := os.ReadFile(path)
 	if err == nil {
 		json.Unmarshal(b, &k)
 	}
@@ -560,6 +564,8 @@ func runReplay(dir string, spec *Spec, entry string, f *Finding, params map[stri
 		}
 		wr(filepath.Join(repoDir, "internal", "vrt", "vrt.go"), "vrt.go", readRT(schedTmpl))
 		wr(filepath.Join(repoDir, "internal", "vrt", "vrt_common.go"), "vrt_common.go", readRT("vrt_common.go.tmpl"))
+		wr(filepath.Join(repoDir, "internal", "vrt", "vrt_race_on.go"), "vrt_race_on.go", readRT("vrt_race_on.go.tmpl"))
+		wr(filepath.Join(repoDir, "internal", "vrt", "vrt_race_off.go"), "vrt_race_off.go", readRT("vrt_race_off.go.tmpl"))
 		ents, _ := os.ReadDir(pkgDir)
 		for _, e := range ents {
 			n := e.Name()
